@@ -341,6 +341,27 @@ def stdTableFde (caf daf : Int) (cieInstrs : List Cfa) (loc : Int) (instrs : Lis
   | none => none
   | some ini => (trun caf daf (some ini) ⟨loc, ini, [], []⟩ instrs).map TState.table
 
+/-! ### register columns in order of first appearance
+
+  Not part of DWARF: pyelftools' `DecodedCallFrameTable.reg_order` lists the registers that have a column, in the
+  order in which the instruction sequence (for an FDE: the CIE's initial instructions, then the FDE's) first
+  mentions them in a register-rule instruction (`DW_CFA_restore*` included). -/
+
+/-- the register whose rule the instruction sets or restores -/
+def Cfa.ruleReg : Cfa → Option Nat
+  | .offset r _ | .restore r => some r
+  | .offset_extended r _ | .restore_extended r | .undefined r | .same_value r | .register r _ | .expression r _
+  | .offset_extended_sf r _ | .val_offset r _ | .val_offset_sf r _ | .val_expression r _ => some r.v
+  | _ => none
+
+/-- keep the first occurrence of every element -/
+def firstOccurrences : List Nat → List Nat
+  | [] => []
+  | r :: rs => r :: (firstOccurrences rs).filter (· ≠ r)
+
+/-- registers with a rule instruction, in order of first appearance -/
+def regOrder (is : List Cfa) : List Nat := firstOccurrences (is.filterMap Cfa.ruleReg)
+
 /-! ### observations of rules (the library's `CFARule(reg, offset, expr)`, `RegisterRule(type, arg)`) -/
 
 def bytesObs (e : Bytes) : Val := .list (e.map fun x => .int x.toNat)
@@ -577,6 +598,11 @@ def Fde.wf (sec : Section) (off : Nat) (f : Fde) : Bool :=
        && ptrFits sec.asz (c.fdeEnc % 16) f.loc && ptrFits sec.asz (c.fdeEnc % 16) f.range
        && (c.lsdaEnc == 0xff || ptrFits sec.asz (c.lsdaEnc % 16) f.lsda)
        && decide (1 ≤ f.augLenN)
+       -- the CIE pointer fits its field (LSB 10.6.1.1.2: a 4-byte unsigned value)
+       && decide (sec.ciePointer off f < 256 ^ offSize f.fmt64)
+       -- the augmentation data length fits the `augLenN` LEB128 bytes that carry it (as `Cie.wf` demands of the CIE)
+       && decide ((if c.lsdaEnc = 0xff then [] else encPtr sec.le sec.asz (c.lsdaEnc % 16) f.lsda).length
+                    < 2 ^ (7 * f.augLenN))
      else ptrFits sec.asz 0 f.loc && ptrFits sec.asz 0 f.range
        -- `.debug_frame`: an all-ones pointer is the CIE id
        && decide (sec.offsetOf f.cie < 256 ^ offSize f.fmt64 - 1))
